@@ -70,6 +70,7 @@ func C08(c *Ctx) {
 	r.Explanation = "Termination and longest match over all operand shapes are behavioural and not decided. Decided: (a) nothing of the final, non-extending growth attempt is retained: on every return of the leader routine the position, the state store and the error list are exactly those recorded when the returned result was accepted, the result is memoised under the start position, and a memo hit restores the stored end; (b) expression memoisation is disabled inside left-recursive rules consistently (same guard at lookup and store, derived from the rule on top of the rule stack); (c) dispatch: leader rules go to the leader routine, other left-recursive rules are evaluated plainly (never through the rule memo), in every LeftRecursion variant; (d) the growth loop continues only when the attempt succeeded and (after the seed) ended strictly beyond the previous end; (e) every left-recursive group gets a leader, a single-rule component counts as a group exactly when the rule references itself (C08-g), and - recorded as finding F19 - the leader is fixed at generation time by name although which rule has to grow the seed depends on where the component is entered (C08-h). Equivalence with -optimize-parser is C10."
 	r.Assumptions = []string{"induction hypothesis on parseRule"}
 	r.Rule("C08-a", "every non-memo return of parseRuleRecursiveLeader has pt = lastResult.end, state store and *p.errs as when lastResult was recorded; returns lastResult.v, lastResult.b; the memo table is total (setMemoized stores on every path, getMemoized returns what was stored), so each growth step replaces the seed; last setMemoized is keyed by the start mark")
+	r.Rule("C08-a2", "the error list is append-only between the snapshot and the rollback of the leader loop: errList.add appends on its only path and no other method stores into the list (the loop snapshots the list as a slice header; an insertion in the middle rewrites the shared backing array, so re-installing the header keeps an error of the discarded attempt and drops a legitimate one)")
 	r.Rule("C08-b", "parseExprWrap (LeftRecursion, not Optimize): isLeftRecursion := p.rstack[top].leftRecursive and both memo guards are `p.memoize && !isLeftRecursion`")
 	r.Rule("C08-c", "parseRuleWrap: leader routine iff rule.leader (within left-recursive or memoised dispatch); parseRuleMemoize only when !rule.leftRecursive; each path evaluates the rule exactly once; parseRuleRecursiveNoLeader is parseRule")
 	r.Rule("C08-d", "the growth loop breaks unless ok && (depth == 0 || endMark.offset > lastResult.end.offset); lastResult/lastErrors are updated and the position reset to the start mark only on the continuing path")
@@ -101,6 +102,10 @@ func C08(c *Ctx) {
 		c.undecidedExits("C08-a", a, "parseRuleRecursiveLeader")
 		leaderFinalAttempt(c, a, "C08-a")
 		memoTableTotal(c, v, "C08-a")
+		// the leader rolls the error list back by re-installing an earlier slice header: that is a rollback only
+		// while errors are recorded by appending (C06-f / C11-b under this property)
+		errListKeepsAll(c, v, "C08-a2")
+		errListMethodsKeepErrors(c, v, "C08-a2")
 		// ---- b
 		if !v.Params.Optimize {
 			fd := v.Func("parser", "parseExprWrap")
